@@ -111,8 +111,8 @@ func init() {
 
 func init() {
 	Properties["C10"] = PropSpec{
-		Rules:       []Rule{MapOrder("(*SpecValidator).Validate"), RuleSeq, RunState, ResultAlgebra},
-		Explanation: "MAP-ORDER: in every function reachable from (*SpecValidator).Validate, a range over a map is left before exhaustion only by pure search loops, and a list filled in map order is sorted before it is rendered into a message (taint propagated through appends, callees' return values and ranges over tainted lists); RULE-SEQ: early returns only under !Options.ContinueOnErrors && errs.HasErrors(), the final return after all rules (so the stop-early run executes a prefix of the same rule sequence: its errors are a subset), warnings bookkeeping deferred before the first rule, options copied per validator and the process-wide default never consulted during validation; RUN-STATE: per-run fields of a reused validator are re-initialised; RESULT-ALGEBRA: messages form a text-keyed set (order-insensitive accumulation).",
+		Rules:       []Rule{MapOrder("(*SpecValidator).Validate"), RuleSeq, ModeUse, RunState, ResultAlgebra},
+		Explanation: "MAP-ORDER: in every function reachable from (*SpecValidator).Validate, a range over a map is left before exhaustion only by pure search loops, and a list filled in map order is sorted before it is rendered into a message (taint propagated through appends, callees' return values and ranges over tainted lists); RULE-SEQ: early returns only under !Options.ContinueOnErrors && errs.HasErrors(), the final return after all rules (so the stop-early run executes a prefix of the same rule sequence: its errors are a subset), warnings bookkeeping deferred before the first rule, options copied per validator and the process-wide default never consulted during validation; MODE-USE: every read of ContinueOnErrors is consumed by a branch condition of Validate and flows nowhere else (not into a rule, not into the options of a dependency such as the reference expander), so the mode decides when the run stops and never what a rule reports; RUN-STATE: per-run fields of a reused validator are re-initialised; RESULT-ALGEBRA: messages form a text-keyed set (order-insensitive accumulation).",
 		NotDecided:  "Determinism of the dependencies (analysis, loader); serialisation variants of one document; which member of a cycle a circular-ancestry message names.",
 		Assumptions: []string{trustDeps},
 	}
@@ -221,8 +221,8 @@ func init() {
 
 func init() {
 	Properties["C09"] = PropSpec{
-		Rules:       []Rule{Traverse, RuleSeq},
-		Explanation: "TRAVERSE: (a) the recursive descent of both walkers calls itself on schema.Items.Schema, each of Items.Schemas, each of Properties, AdditionalProperties.Schema and each of AllOf, with a path that extends the current one and contains the loop key/index (so members get distinct visited-set keys), merged with Merge; the schema's own default/example is validated by a validator built from that schema; (b) the default and the example walker are compared step by step (callee, argument provenance, guard conditions, path shape): every traversal step of the default walker exists in the example walker under the same guards; (c) a leaf verdict on a default enters as Merge (error), on an example as MergeAsWarnings, and both walkers are merged with Merge in Validate (RULE-SEQ); (d) the skip predicate isVisited may answer true only on the found edge of the lookup of that path.",
+		Rules:       []Rule{Traverse, ResetBetween, RuleSeq},
+		Explanation: "TRAVERSE: (a) the recursive descent of both walkers calls itself on schema.Items.Schema, each of Items.Schemas, each of Properties, AdditionalProperties.Schema and each of AllOf, with a path that extends the current one and contains the loop key/index (so members get distinct visited-set keys), merged with Merge; the schema's own default/example is validated by a validator built from that schema; (b) the default and the example walker are compared step by step (callee, argument provenance, guard conditions, path shape): every traversal step of the default walker exists in the example walker under the same guards; (c) a leaf verdict on a default enters as Merge (error), on an example as MergeAsWarnings, and both walkers are merged with Merge in Validate (RULE-SEQ); (d) the skip predicate isVisited may answer true only on the found edge of the lookup of that path; RESET-BETWEEN: every top-level walk (per parameter, per response schema, per definition) starts from an emptied visited set on every path, loops included, so that a path of one walk can never be taken for a visited path of another.",
 		NotDecided:  "That each leaf validation is right (C01/C16); the behaviour of the recursion cut-off on circular specifications.",
 		Assumptions: []string{trustDeps},
 	}
